@@ -953,8 +953,12 @@ def ref_prefix(ctx: Ctx) -> RuleResult:
         h = hs[0]
         pname = next((a.arg for a in h.node.args.kwonlyargs if "id" in a.arg), None)
         regs = [n for n in iter_own_nodes(h.node) if isinstance(n, ast.Call) and dotted(n.func) == "make_axn_id"]
+        # the prefixer: handed in as a callback parameter, or a module-level function that reads the prefix stack itself
+        mod_pref = {g.name for g in pkg_funcs(ctx) if g.cls is None and g.parent is None and len(g.node.args.args) == 1
+                    and any(isinstance(x, ast.Attribute) and x.attr == "DAG_PREFIX" for x in ast.walk(g.node))}
         for n in regs:
-            ok = bool(n.args) and isinstance(n.args[0], ast.Call) and dotted(n.args[0].func) == pname
+            ok = bool(n.args) and isinstance(n.args[0], ast.Call) and (
+                (pname is not None and dotted(n.args[0].func) == pname) or dotted(n.args[0].func) in mod_pref)
             r.ob(ok, {"argument holder id": norm_src(n)})
             if not ok:
                 r.violate(f"{h.short}: argument holder registered under an unprefixed id", h.loc(n),
